@@ -854,7 +854,7 @@ func runC08(c *Ctx) {
 			}
 		}
 		c.R.Note("seed corpus: %d valid streams (%d with an estimated decode cost >= 40 ms get thinned mutation sets)", len(seeds), slow)
-		pc := planCfg{thorough: c.Thor, byteValPer: 90, havocPer: 40, randomPerFam: 4000, splices: 3000, rleFI: 3000, denseTrunc: 800}
+		pc := planCfg{thorough: c.Thor, byteValPer: 50, havocPer: 25, randomPerFam: 2500, splices: 2000, rleFI: 2000, denseTrunc: 600}
 		if c.Thor {
 			pc.byteValPer, pc.havocPer, pc.randomPerFam, pc.splices, pc.rleFI, pc.denseTrunc = 1500, 600, 60000, 60000, 40000, 3000
 		}
